@@ -44,6 +44,7 @@ def plan(tier, seed):
     n = 12 if tier == "quick" else 500
     shards = [{"kind": "direct", "seed": seed * 811 + i, "n": n} for i in range(16)]
     shards.append({"kind": "plugin", "item": {"kind": "matrix"}, "seed": seed})
+    shards.append({"kind": "plugin", "item": {"kind": "features"}, "seed": seed})
     for i in range(8 if tier == "quick" else 150):
         shards.append({"kind": "plugin", "item": {"kind": "gen", "seed": seed * 100003 + i, "opts": {"services": False}}, "seed": seed + i})
     return shards
@@ -51,7 +52,13 @@ def plan(tier, seed):
 
 def gen_definition(rng):
     n = rng.randint(1, 12)
-    names = [f"V{i}" for i in range(n)]
+    style = rng.random()
+    if style < 0.6:
+        names = [f"V{i}" for i in range(n)]
+    elif style < 0.8:  # what the plugin produces for VERSION_1 / VERSION_2_0 after stripping the enum-name prefix
+        names = [f"_{i}" if i % 2 else f"_{i}_0" for i in range(n)]
+    else:
+        names = [rng.choice(["_A", "_b", "x", "X_", "lower", "mixedCase", "_9", "name_", "value_", "V"]) + str(i) for i in range(n)]
     rng.shuffle(names)
     vals = []
     used = []
@@ -214,6 +221,14 @@ def check_mutation(E, res: Result, w, dc):
         expect_raise("members-proxy-setitem", lambda: E.__members__.__setitem__("NEW", m))
         expect_raise("members-proxy-delitem", lambda: E.__members__.__delitem__(some))
     expect_raise("class-setattr-new", lambda: setattr(E, "BRAND_NEW", 7))
+    # every attribute assignment on the class is an attempt to mutate it, whatever the name looks like
+    expect_raise("class-setattr-private", lambda: setattr(E, "_private", 7))
+    expect_raise("class-setattr-value-map", lambda: setattr(E, "_value_map_", {}))
+    expect_raise("class-setattr-member-map", lambda: setattr(E, "_member_map_", {}))
+    expect_raise("class-setattr-dunder-eq", lambda: setattr(E, "__eq__", lambda a, b: True))
+    expect_raise("class-setattr-dunder-hash", lambda: setattr(E, "__hash__", None))
+    expect_raise("class-delattr-private", lambda: delattr(E, "_value_map_"))
+    expect_raise("class-delattr-new", lambda: delattr(E, "try_value"))
     und = E.try_value(123456789)
     expect_raise("undeclared-set-name", lambda: setattr(und, "name", "HACK"))
 
@@ -255,6 +270,34 @@ def check_fields(E, H, attrs, values, declared, res: Result, w, dc):
                     res.violation("json", [dc, pos, vc, as_, "number-changed"], f"{E.__name__} value {v} in {pos} came back from JSON as {got!r} ({text})", ww)
 
 
+def check_mixed_lists(E, H, attrs, declared, und, res: Result, w, dc):
+    """repeated enum fields holding declared and undeclared numbers side by side, in both orders, through bytes and JSON"""
+    if not declared or not und:
+        return
+    attr = attrs["repeated"]
+    d0, u0 = declared[0], und[0]
+    for order, nums in (("declared-first", [d0, u0, declared[-1]]), ("undeclared-first", [u0, d0, und[-1]]),
+                        ("alternating", [d0, u0, d0, u0])):
+        ww = dict(w, mixed=nums)
+        res.counters["field_roundtrips"] += 1
+        try:
+            m = H(**{attr: [E.try_value(v) for v in nums]})
+            back = [int(x) for x in getattr(H().parse(bytes(m)), attr)]
+        except Exception as e:
+            res.violation("binary", [dc, "repeated-mixed", order, "member", "raised:" + type(e).__name__], f"{E.__name__} {nums}: {e!r}", ww)
+            continue
+        if back != nums:
+            res.violation("binary", [dc, "repeated-mixed", order, "member", "number-changed"], f"{E.__name__} {nums} came back as {back}", ww)
+        try:
+            text = json.dumps(m.to_dict())
+            backj = [int(x) for x in getattr(H().from_dict(json.loads(text)), attr)]
+        except Exception as e:
+            res.violation("json", [dc, "repeated-mixed", order, "member", "raised:" + type(e).__name__], f"{E.__name__} {nums} via JSON: {e!r}", ww)
+            continue
+        if backj != nums:
+            res.violation("json", [dc, "repeated-mixed", order, "member", "number-changed"], f"{E.__name__} {nums} came back from JSON as {backj} ({text})", ww)
+
+
 def run_enum(E, H, attrs, names_by_number, canon_name, rng, res: Result, w):
     declared = sorted(names_by_number)
     dc = def_class([n for n, ns in names_by_number.items() for _ in ns])
@@ -274,6 +317,7 @@ def run_enum(E, H, attrs, names_by_number, canon_name, rng, res: Result, w):
             res.violation("open", [dc, "try_value", "undeclared-not-accepted-as-is"], f"{E.__name__}.try_value({u}) = {t!r} name={getattr(t, 'name', '?')!r}", w)
     if H is not None:
         check_fields(E, H, attrs, declared + und, set(declared), res, w, dc)
+        check_mixed_lists(E, H, attrs, declared, und, res, w, dc)
     check_mutation(E, res, w, dc)
     after = snapshot(E, probes)
     if after != before:
